@@ -300,6 +300,17 @@ struct B12
 };
 static_assert(sizeof(B3) == 3 && sizeof(B12) == 12);
 
+// trivially copyable, no padding bits, but equality and order are NOT bytewise (values are compared modulo 8):
+// a bytewise fast path widened to such a class type is observable
+struct Mod8
+{
+    uint8_t v;
+    friend bool operator==(const Mod8& x, const Mod8& y) { return (x.v & 7) == (y.v & 7); }
+    friend bool operator!=(const Mod8& x, const Mod8& y) { return !(x == y); }
+    friend bool operator<(const Mod8& x, const Mod8& y) { return (x.v & 7) < (y.v & 7); }
+};
+static_assert(std::has_unique_object_representations_v<Mod8>);
+
 // ------------------------------------------------------------------------------------------------ codecs
 template <class T, class = void>
 struct Codec;
@@ -376,6 +387,14 @@ struct Codec<B3>
 {
     static B3 make(int64_t v) { return B3{{static_cast<uint8_t>(v), static_cast<uint8_t>(v >> 8), static_cast<uint8_t>(v >> 16)}}; }
     static int64_t read(const B3& x) { return x.a[0] | (x.a[1] << 8) | (x.a[2] << 16); }
+    static int64_t moved(int64_t v) { return v; }
+};
+
+template <>
+struct Codec<Mod8>
+{
+    static Mod8 make(int64_t v) { return Mod8{static_cast<uint8_t>(v)}; }
+    static int64_t read(const Mod8& x) { return x.v; }
     static int64_t moved(int64_t v) { return v; }
 };
 
@@ -462,6 +481,7 @@ const char* type_name()
     else if constexpr (std::is_same_v<T, EnumE>) return "enumE";
     else if constexpr (std::is_same_v<T, B3>) return "B3";
     else if constexpr (std::is_same_v<T, B12>) return "B12";
+    else if constexpr (std::is_same_v<T, Mod8>) return "M8";
     else if constexpr (std::is_same_v<T, std::string>) return "str";
     else if constexpr (std::is_same_v<T, std::unique_ptr<int>>) return "uptr";
     else if constexpr (IsTracked<T>::value) return std::is_copy_constructible_v<T> ? "Tr" : "TrMv";
